@@ -58,6 +58,7 @@ type PathState struct {
 	watchEpoch int
 	permuteBudget int
 	known     map[*smt.Term]bool
+	failDetail Value
 	nameCount map[string]int
 	uninterp  map[string]*smt.Term
 	stubFlags []stubFlag
@@ -508,6 +509,10 @@ func (in *Interp) recordViolation(id, detail string, m []uint64, cond *smt.Term)
 			m = cm
 			v.Canonical = true
 		}
+	}
+	if p.failDetail != nil {
+		v.Detail = in.renderObs(p.failDetail, m)
+		p.failDetail = nil
 	}
 	v.Model = in.namedModel(m)
 	v.Vector = in.vector(m)
